@@ -9,12 +9,16 @@ pub mod c06;
 pub mod c08;
 pub mod c09;
 pub mod c10;
+pub mod c13;
+pub mod c14;
 pub mod c17;
 pub mod c18;
+pub mod c24;
 pub mod c25;
 pub mod c26;
 pub mod c27;
 pub mod c29;
+pub mod c32;
 pub mod c35;
 pub mod crash;
 
@@ -34,12 +38,16 @@ pub const REGISTRY: &[Entry] = &[
     Entry { id: "C08", level: "fault_enumeration", run: c08::run },
     Entry { id: "C09", level: "exploration", run: c09::run },
     Entry { id: "C10", level: "exploration", run: c10::run },
+    Entry { id: "C13", level: "exploration", run: c13::run },
+    Entry { id: "C14", level: "exploration", run: c14::run },
     Entry { id: "C17", level: "fault_enumeration", run: c17::run },
     Entry { id: "C18", level: "exploration", run: c18::run },
+    Entry { id: "C24", level: "exploration", run: c24::run },
     Entry { id: "C25", level: "exploration", run: c25::run },
     Entry { id: "C26", level: "exploration", run: c26::run },
     Entry { id: "C27", level: "exploration", run: c27::run },
     Entry { id: "C29", level: "exploration", run: c29::run },
+    Entry { id: "C32", level: "exploration", run: c32::run },
     Entry { id: "C35", level: "exploration", run: c35::run },
 ];
 
